@@ -9,6 +9,8 @@ from fractions import Fraction
 import common
 sys.path.insert(0, os.path.join(common.VERIF, "tx"))
 import shotable as txsho
+import builders as txbld
+import c16_bld
 
 NDUMP = 12          # size of the model matrices evaluated in Coq (top-left blocks serve all nbas <= NDUMP)
 KMAX = 6            # powers x^k, p^k compared for k = 0..KMAX
@@ -194,6 +196,7 @@ ORACLE_WHAT = {
 def run(ctx):
     t0 = time.time()
     ctx.trusted += [
+        "translator tx/builders.py (python ast of the term / site loops of TI1DModel, HolsteinModel, SpinBosonModel, heisenberg_ops, construct_j_matrix, Mol.__init__, Phonon.reorganization_energy -> Gallina; fail-closed; non-generating statements compared with a whitelist; numpy helpers np.ones/np.diag/item assignment modelled by np_vec/np_diag/mat_set); exact correspondence of model.ham_terms / model.basis on dyadic parameters (harness/c16_bld.py)",
         "translator tx/shotable.py (python ast of BasisSHO.op_mat -> prefactor + rational combination of ladder monomials; fail-closed; primitive matrices recognised by exact source text)",
         "hand-written models Model/Ladder.v (monomials in the rational picture, shift_spec, xpow_rat), Model/Pauli.v (spin_symbols, unit matrices), Model/SineDvr.v (closed forms): tied by correspondence harness/c16.py + harness/impl/c16_sho.py",
         "float conversion in harness/c16.py: entry = rational * sqrt(m!/n!) * omega^(sw/2) * 2^(k2/2) * i^ki, compared at 1e-12 relative (1e-10 for the general power formula)",
@@ -204,7 +207,8 @@ def run(ctx):
         "omega > 0 real, x0 real; prefactors live in the multiplicative group generated by Q*, sqrt(omega), sqrt(2), i with the multiplication Ladder.sc_mul / normal form sc_rat, sc_key",
         "second-quantised symbols (b, b^dagger, ...) are compared at x0 = 0 only: the source documents (warning) that they do not support a shifted origin",
         "the DVR power x^k is judged against 'up to the documented truncation at the highest level': it equals (truncated x)^k and must agree with the exact power on entries with m+n+k <= 2N-2",
-        "builders (Holstein, spin-boson, TI1D, heisenberg_ops, construct_j_matrix): dense oracle only, on the 0/1-excitation sector shared by schemes 1-4",
+        "builders: term lists / site lists are proved equal to the documented Hamiltonians (all sizes, all parameters); what a term list MEANS as a dense operator (kron of local matrices, C01) and the equality of schemes 1-3 and 4 on the shared 0/1-excitation sector are checked by the dense oracle only",
+        "Model.check_operator_terms drops terms whose factor is exactly 0 (documented there): the correspondence filters zero-coefficient terms of the model",
     ]
     broken = []
     detail = {}
@@ -217,19 +221,35 @@ def run(ctx):
         ctx.notes.append("translator tx/shotable.py failed: %r" % (e,))
         broken.append("translator tx/shotable.py: %r" % (e,))
         ctx.obligations.append({"name": "translator tx/shotable.py -> Gen/ShoTable.v", "file": "Gen/ShoTable.v", "ok": False, "assumptions": None})
+    bld_ok = False
+    try:
+        ctx.regen("Gen/Builders.v", txbld.main(common.REPO))
+        bld_ok = True
+    except Exception as e:
+        ctx.notes.append("translator tx/builders.py failed: %r" % (e,))
+        broken.append("translator tx/builders.py: %r" % (e,))
+        ctx.obligations.append({"name": "translator tx/builders.py -> Gen/Builders.v", "file": "Gen/Builders.v", "ok": False, "assumptions": None})
     # ---- 2. build + props
     ok_models, log_m = ctx.coq_make(["Gen/ShoTable.vo", "Model/Pauli.vo", "Model/SineDvr.vo"]) if tab is not None else (False, "translator failed")
+    ok_bmodels = False
+    if bld_ok:
+        ok_bmodels, log_b = ctx.coq_make(["Gen/Builders.vo"])
+        if not ok_bmodels:
+            broken.append("Gen/Builders.v does not compile")
+            detail["builders_log_tail"] = log_b[-800:]
     ok_build, log = (False, log_m)
-    if ok_models:
-        ok_build, log = ctx.coq_make(["Proofs/LadderProofs.vo", "Proofs/PauliProofs.vo", "Proofs/SineDvrProofs.vo"])
+    if ok_models and ok_bmodels:
+        ok_build, log = ctx.coq_make(["Proofs/LadderProofs.vo", "Proofs/PauliProofs.vo", "Proofs/SineDvrProofs.vo", "Proofs/BuildersProofs.vo"])
     ok_props = False
     if ok_build:
         ok_props, log = ctx.props("Props/C16.v")
         if not ok_props:
             broken.append("theorem(s) of Props/C16.v: " + ", ".join(o["name"] for o in ctx.obligations if not o["ok"]))
-    elif tab is not None:
-        ctx.obligations.append({"name": "C16 (build of Gen/ShoTable.v + Proofs/LadderProofs.v, PauliProofs.v, SineDvrProofs.v)", "file": "Proofs/LadderProofs.v", "ok": False, "assumptions": None})
-        broken.append("theorems of Props/C16.v (proof files do not compile against the regenerated Gen/ShoTable.v)")
+    elif tab is not None and bld_ok:
+        ctx.obligations.append({"name": "C16 (build of Gen/ShoTable.v, Gen/Builders.v + Proofs/{Ladder,Pauli,SineDvr,Builders}Proofs.v)", "file": "Proofs/LadderProofs.v", "ok": False, "assumptions": None})
+        import re as _re
+        which = sorted(set(_re.findall(r'File "\./(Proofs/\w+\.v)", line \d+, characters [\d-]+:\s*\n\s*Error', log or "")))
+        broken.append("theorems of Props/C16.v (proof files do not compile against the regenerated Gen files%s)" % ((": " + ", ".join(which)) if which else ""))
     detail["coq_log_tail"] = log[-1200:] if isinstance(log, str) else ""
     # ---- 3. correspondence
     rng = ctx.rng
@@ -268,6 +288,11 @@ def run(ctx):
     if model is not None and res is not None:
         ev, nontriv = correspond(model, res, payload, corr_bad, samples, dist)
         detail["model_flags"] = model["flags"]
+    # builders: exact correspondence of ham_terms / basis with Gen/Builders.v
+    if ok_bmodels:
+        ev_b, nt_b = c16_bld.run(ctx, corr_bad, dist, samples)
+        ev += ev_b
+        nontriv += nt_b
     if corr_bad:
         broken.append("correspondence implementation vs Coq model (%d mismatches; first: %s)" % (len(corr_bad), json.dumps(corr_bad[0], default=str)[:300]))
     detail["correspondence"] = corr_bad[:8]
